@@ -182,6 +182,11 @@ fn run_thread(tid: usize, ops: &[Op], mut h: Handles, sh: &Shared, collect: bool
                     }
                 }
             }
+            Op::IntoShared => {
+                if let Some(u) = h.uniq.take() {
+                    h.owners.push(Observable::into_shared(u));
+                }
+            }
             Op::DropOwner => {
                 if let Some(u) = h.uniq.take() {
                     drop(u);
